@@ -659,8 +659,7 @@ func cmdCodec(prop string, n int, seed uint64, driver, out string) (*Result, err
 	if prop == "C15" {
 		builderRoundTrip(root, &prof, res, n/3)
 	}
-	writeKernelSample(out, lines, answers, 30)
-	res.KernelCases = min(30, len(lines))
+	res.KernelCases = writeKernelSample(out, lines, answers, 30)
 	res.Extra = map[string]interface{}{"easyjson_paths": haveEasyJSON}
 	return res, nil
 }
